@@ -318,4 +318,47 @@ theorem expDelimiterCodec_sem (d : Bytes) (m : Int) (s : Bool) (env : Env)
   simp [expDelimiterCodec, run_assert_g, run_nil, GE.eval, h1, h2, Codec.valid]
   cases d <;> (repeat' split) <;> simp_all <;> omega
 
+/-! ### utils.exactReader.Read (the frame body every length-based decoder hands out) -/
+
+def expExactRead : List GS := [
+  .other (.bin "<=" (.var "e.n") (.lit 0)) "return 0, io.EOF",
+  .assign (.bin ">" (.conv "int64" (.len "p")) (.var "e.n")) "p" "=" (.opaque "p[0:e.n]"),
+  .other (.lit 1) "n, err = e.r.Read(p)",
+  .assign (.lit 1) "e.n" "-=" (.conv "int64" (.var "n")),
+  .assign (.bin "&&" (.bin "==" (.var "err") (.opaque "io.EOF")) (.bin ">" (.var "e.n") (.lit 0))) "err" "=" (.opaque "io.ErrUnexpectedEOF"),
+  .other (.lit 1) "return"]
+
+/-- the four decisions of `exactReader.Read`, read off the extracted statements, are those of the model
+    `ExactR.read`: (a) it answers (0, io.EOF) at once iff the counter is not positive; (b) it shortens the
+    buffer iff the buffer is longer than the counter; (c) after the underlying Read returned `k` bytes and
+    the error code `errc` the counter is `n - k` and (d) the error is turned into ErrUnexpectedEOF iff it
+    is io.EOF and the counter is still positive -/
+theorem expExactRead_sem (n : Int) (plen : Nat) (env : Env)
+    (h1 : env.var "e.n" = n) (h2 : env.len "p" = plen) (hp : (plen : Int) < 2^63) :
+    (GE.eval env (.bin "<=" (.var "e.n") (.lit 0)) ≠ 0 ↔ n ≤ 0) ∧
+    (GE.eval env (.bin ">" (.conv "int64" (.len "p")) (.var "e.n")) ≠ 0 ↔ (plen : Int) > n) ∧
+    (∀ (k errc eofc ueofc : Int) (env' : Env), env'.var "e.n" = n → env'.var "n" = k → env'.var "err" = errc →
+      env'.opq "io.EOF" = eofc → env'.opq "io.ErrUnexpectedEOF" = ueofc → I64 k → I64 (n - k) →
+      (run (expExactRead.drop 3) env').map (fun e => (e.var "e.n", e.var "err")) =
+        some (n - k, if errc = eofc ∧ n - k > 0 then ueofc else errc)) := by
+  have hw : wrap64 (plen : Int) = plen := wrap64_id _ (by omega) hp
+  refine ⟨?_, ?_, ?_⟩
+  · simp [GE.eval, h1]
+  · simp [GE.eval, h1, h2, hw]
+  · intro k errc eofc ueofc env' e1 e2 e3 e4 e5 hk hnk
+    unfold I64 at hk hnk
+    have w1 : wrap64 k = k := wrap64_id _ hk.1 hk.2
+    have w2 : wrap64 (n - k) = n - k := wrap64_id _ hnk.1 hnk.2
+    simp [expExactRead, run_assign_g, run_other, run_nil, GE.eval, e1, e2, e3, e4, e5, w1, w2]
+    by_cases hc : errc = eofc
+    · subst hc
+      by_cases hk' : n ≤ k
+      · have : ¬ (k < n) := by omega
+        have : ¬ (0 < n - k) := by omega
+        simp [hk', *]
+      · have : k < n := by omega
+        have : 0 < n - k := by omega
+        simp [hk', *]
+    · simp [hc, e3]
+
 end NettyVerif.Guards
